@@ -426,13 +426,67 @@ class C18(FrpProp):
     profile = Profile(w=W(router=12, filter=6), p_mem=0.2, p_def_in_txn=0.2, n_txn=(4, 12))
 
 
+HEAP_PROFILE = Profile(w=W(once=0, sloop=4, cloop=4, accum=5, collect=4, defer=3, split=3, gate=4, value=4, updates=4, lift=8,
+                           map_c=6), p_mem=0.5, p_unlisten=0.3, weak=0.3, final_teardown=True, n_defs=(4, 12), n_txn=(3, 8),
+                       p_sample=0.1)
+_HROW = re.compile(r"^(\d+):(.*):(\d):(\d+):(\d+):([\d.]*)$")
+
+
+def parse_heap(h):
+    rows = {}
+    for r in h.split("/"):
+        m = _HROW.match(r)
+        if m:
+            rows[int(m.group(1))] = (m.group(2), int(m.group(3)), int(m.group(4)), int(m.group(5)),
+                                     sorted(int(x) for x in m.group(6).split(".") if x))
+    return rows
+
+
+def heap_agree(lines, mo, io):
+    """object-by-object comparison of the heap model (Model/Heap.v run on Model/Gc.v) with the real reachable heap at
+    every audited line: id, constructor name, freed flag, reference count, handles held, multiset of traced edges;
+    and the number of live nodes"""
+    for k, l in enumerate(lines):
+        if k >= len(mo):
+            return "HIDDEN: heap model stopped at line %d (%s)" % (k + 1, mo[-1] if mo else None)
+        m = mo[k]
+        if m.startswith("unsupported"):
+            return "INCONCLUSIVE: outside the heap model's fragment (%s)" % m
+        if m.startswith("model-"):
+            return "HIDDEN: heap model: %s at line %d (%s)" % (m, k + 1, l)
+        if m == "-":
+            continue
+        o = io[k] if k < len(io) else ""
+        a = anns(o)
+        ih = parse_heap(a.get("H", ""))
+        mh = parse_heap(m.split("H=")[1].split(" n=")[0])
+        for i, r in sorted(ih.items()):
+            if i not in mh:
+                return "HIDDEN: line %d (%s): object %d %s is in the real heap, not in the heap model's" % (k + 1, l, i, r)
+            if mh[i] != r:
+                return ("HIDDEN: line %d (%s): object %d: real (name, freed, count, handles, edges) = %s, heap model %s"
+                        % (k + 1, l, i, r, mh[i]))
+        for i, r in sorted(mh.items()):
+            if i not in ih and r[0] != "StreamLoop::new":
+                return "HIDDEN: line %d (%s): object %d %s is reachable in the heap model, not in the real heap" % (k + 1, l, i, r)
+        if "n" in a and a["n"] != m.split(" n=")[1]:
+            return "HIDDEN: line %d (%s): %s live nodes, the heap model has %s" % (k + 1, l, a["n"], m.split(" n=")[1])
+    td = [x for x in mo if x.startswith("teardown")]
+    if td and td[0] != "teardown held=0 n=0":
+        return "HIDDEN: heap model: after releasing every handle and collecting: %s" % td[0]
+    return None
+
+
 class GcBacked(FrpProp):
-    """C06/C07 also run collector-level scripts (synthetic objects on the real GcCtx): the part of these properties
-    that is the collector's own responsibility, judged by reachability on the dumped heap"""
+    """C06/C07 also run (a) collector-level scripts (synthetic objects on the real GcCtx): the part of these properties
+    that is the collector's own responsibility, judged by reachability on the dumped heap; (b) programs of the static
+    fragment with the heap model Model/Heap.v compared object by object with the real heap"""
 
     def batches(self, tier, seed):
         for b in FrpProp.batches(self, tier, seed):
             yield b
+        n = 1500 if tier == "quick" else 30000
+        yield Batch("frp-heap", gen_scripts(int(seed), n, HEAP_PROFILE, "heap"), "heap model vs real heap")
         from .gcprops import gen
         n = 4000 if tier == "quick" else 60000
         rs = []
@@ -443,12 +497,24 @@ class GcBacked(FrpProp):
     def run_model(self, batch, scripts, iout, shards=C.NPROC):
         if batch.mode == "gc-run":
             return Prop.run_model(self, batch, scripts, iout, shards)
+        if batch.mode == "frp-heap":
+            guided = []
+            for name, lines in scripts:
+                io = iout.get(name, [])
+                guided.append((name, [(l + " || A") if (k < len(io) and "A" in anns(io[k])) else l
+                                      for k, l in enumerate(lines)]))
+            return C.run_sharded(C.MODEL_RUN, "heap-run", guided, batch.timeout, shards)
         return FrpProp.run_model(self, batch, scripts, iout, shards)
 
     def agree(self, batch, name, lines, mout, io):
         if batch.mode == "gc-run":
             d = Prop.agree(self, batch, name, lines, mout, io)
             return ("HIDDEN: " + d) if d else None
+        if batch.mode == "frp-heap":
+            mo = mout.get(name)
+            if mo is None:
+                return "HIDDEN: no heap model output"
+            return heap_agree(lines, mo, io)
         return FrpProp.agree(self, batch, name, lines, mout, io)
 
     def oracle(self, batch, name, lines, out):
